@@ -50,6 +50,21 @@ func runC07(p *an.Prog, r *an.Run, tier string) {
 		}
 	}
 	r.Floor("settlers", len(settlers), 1)
+	// what is paid is deposit + credit as read: every source of that balance is reported when it fails (shared with
+	// C03.balance-errors), and a refused or failed withdrawal leaves the balance as it was, which includes not mutating
+	// the big.Int digits a returned Balance shares with the store / deposit cache (shared with C10.no-shared-bigint)
+	checkBalanceReadErrors(p, r)
+	{
+		sm, _ := sharedBigIntMutations(p)
+		var sb []string
+		for _, m := range sm {
+			if m.fn.Pkg != nil && strings.HasSuffix(m.fn.Pkg.Pkg.Path(), "/pool/payment") {
+				sb = append(sb, m.msg)
+			}
+		}
+		r.Check(len(sb) == 0, "fail-clean", "payment:shared-digits", token.NoPos, "the payment service never mutates a balance it was handed in place", "%s", strings.Join(sb, "; "))
+	}
+	checkDepositCache(p, r)
 	// the functions bound to the Settle field must report a failed payout
 	nBound := 0
 	for _, fn := range p.Repo {
@@ -511,4 +526,38 @@ func dedup(l []string) []string {
 		}
 	}
 	return out
+}
+
+// checkDepositCache: the deposit part of the balance comes from balanceCache, which the contract's Balance events keep
+// current through Set (after a settlement: Balance(account, 0)). Set must record every value it is given — one that
+// filters some (nil, zero, "unchanged") leaves the pre-settlement deposit in the cache, to be paid again.
+func checkDepositCache(p *an.Prog, r *an.Run) {
+	set := p.Method("pool/payment", "balanceCache", "Set")
+	if set == nil {
+		r.Undec("deposit-cache", "payment.balanceCache.Set", token.NoPos, "anchor not found")
+		return
+	}
+	r.Analysed(an.FuncName(set))
+	var bad []string
+	var upd *ssa.MapUpdate
+	an.AllInstrs(set, func(in ssa.Instruction) {
+		if mu, ok := in.(*ssa.MapUpdate); ok && an.FieldOf(stripLoad(mu.Map)) != nil && an.FieldOf(stripLoad(mu.Map)).Name() == "cache" {
+			upd = mu
+		}
+	})
+	if upd == nil {
+		bad = append(bad, "Set does not write the cache")
+	} else {
+		isUpd := func(in ssa.Instruction) bool { return in == ssa.Instruction(upd) }
+		if in := pathFromBlock(set, set.Blocks[0], isUpd, an.IsReturn); in != nil {
+			bad = append(bad, "Set can return at "+p.Pos(in.Pos())+" without recording the amount: a Balance event it skips (e.g. the zero balance after a settlement) leaves the old deposit cached, and it is paid again")
+		}
+		if stripConv(upd.Key) != ssa.Value(set.Params[1]) {
+			bad = append(bad, "the cache entry is not keyed by the account it was given")
+		}
+		if !p.Derives(0, upd.Value).HasParam(set.Params[2]) {
+			bad = append(bad, "the cached value is not the amount it was given")
+		}
+	}
+	r.Check(len(bad) == 0, "deposit-cache", an.FuncName(set), set.Pos(), "every balance event reaches the cache", "%s", strings.Join(bad, "; "))
 }
